@@ -13,7 +13,8 @@
    6.7.2.4p4); identifier lists occur only in function declarators of definitions; a
    declaration without declarators needs a tag (6.7p2).                                  *)
 EXTENDS Naturals, Sequences, TLC, FiniteSets, Json
-CONSTANT Fuel
+CONSTANTS Fuel,
+          RootSet     \* the root contexts of this run (subset of RootNames)
 VARIABLES stack, toks, fuel, feat
 vars == <<stack, toks, fuel, feat>>
 T(s) == <<"T", s>>
@@ -202,15 +203,16 @@ Alts(nt, p) ==
     [] nt = "item" -> ItemAlts [] nt = "hide" -> HideAlts [] nt = "ext" -> ExtAlts [] nt = "tu" -> TUAlts
 
 Prelude == <<T("typedef"), T("int"), T("T"), T(";")>>
-Roots == { Prelude \o r : r \in {
-           <<N("tu", 0)>>,
-           <<N("ext", 0)>>,
-           <<T("void"), T("f"), T("("), T("void"), T(")"), T("{"), N("item", 0), T("}")>>,
-           <<T("void"), T("f"), T("("), T("void"), T(")"), T("{"), E(1), T(";"), T("}")>>,
-           <<T("int"), T("x"), T("="), N("init", 0), T(";")>>,
-           <<T("struct"), T("S"), T("{"), N("structdecl", 0), T("}"), T(";")>>,
-           <<T("void"), T("f"), T("("), N("paramdecl", 0), T(")"), T(";")>>,
-           <<T("int"), T("x"), T("="), T("sizeof"), T("("), N("typename", 0), T(")"), T(";")>> } }
+RootNames == {"tu", "ext", "item", "exprstmt", "init", "struct", "param", "typename"}
+RootOf(r) == CASE r = "tu" -> <<N("tu", 0)>>
+               [] r = "ext" -> <<N("ext", 0)>>
+               [] r = "item" -> <<T("void"), T("f"), T("("), T("void"), T(")"), T("{"), N("item", 0), T("}")>>
+               [] r = "exprstmt" -> <<T("void"), T("f"), T("("), T("void"), T(")"), T("{"), E(1), T(";"), T("}")>>
+               [] r = "init" -> <<T("int"), T("x"), T("="), N("init", 0), T(";")>>
+               [] r = "struct" -> <<T("struct"), T("S"), T("{"), N("structdecl", 0), T("}"), T(";")>>
+               [] r = "param" -> <<T("void"), T("f"), T("("), N("paramdecl", 0), T(")"), T(";")>>
+               [] r = "typename" -> <<T("int"), T("x"), T("="), T("sizeof"), T("("), N("typename", 0), T(")"), T(";")>>
+Roots == { Prelude \o RootOf(r) : r \in RootSet }
 Init == stack \in Roots /\ toks = <<>> /\ fuel = Fuel /\ feat = <<>>
 Expand == /\ stack # <<>> /\ Head(stack)[1] = "N"
           /\ \E a \in Alts(Head(stack)[2], Head(stack)[3]) :
